@@ -238,6 +238,24 @@ Section C19.
       rewrite C. reflexivity.
   Qed.
 
+  (* ---- exact behaviour on EVERY well-formed string, whatever parameters it embeds (a hash made by
+     a past or future hash_password with other N, r, p, salt and digest lengths) *)
+  Theorem C19_verify_wellformed_proof : b64_roundtrip b64d ->
+    forall q k salt dg, params_in_range k -> k_sl k = len salt -> k_len k = len dg -> 1 <= len dg ->
+    verify (PBytes q) (PStr (Ok (hash_string (b64e (pack_params k)) (b64e (salt ++ dg))))) =
+    (do d <- kdf salt (k_len k) (k_N k) (k_r k) (k_p k) (sha q); Ok (bytes_eqb d dg)).
+  Proof.
+    intros HB q k salt dg Hr Hs Hl H1. unfold verify_password. cbn [bind].
+    rewrite (prepare_hash_string b64d _ _ (pack_params k) (salt ++ dg) k
+               (b64e_no_colon _) (b64e_no_colon _) (HB _) (HB _) (unpack_pack k Hr)).
+    assert (C : (k_len k <? 1) || negb (k_sl k + k_len k =? len (salt ++ dg)) = false).
+    { unfold len in *. rewrite app_length. apply orb_false_iff. split; [lia|].
+      apply negb_false_iff. lia. }
+    rewrite C. cbn [bind prepared_of q_salt q_len q_N q_r q_p q_expected].
+    assert (Ln : length salt = Z.to_nat (k_sl k)) by (unfold len in Hs; lia).
+    destruct (firstn_skipn_app salt dg _ Ln) as [F S]. rewrite F, S. reflexivity.
+  Qed.
+
   (* the string is ASCII (so that .decode("utf-8") followed by .encode("utf-8") is the identity) *)
   Theorem C19_hash_ascii_proof : forall pw salt h, hash pw salt = Ok h ->
     Forall (fun c => (Byte.to_N c < 128)%N) h.
